@@ -315,27 +315,27 @@ func judgeTermCase(t testing.TB) func(c termCase, rec *hx.Rec) string {
 				rs = rs2 // the worker had died for another reason; judge the retry
 			} else {
 				expensive(c.Text)
-				return fmt.Sprintf("the process running CompileWarrior died (fatal runtime error or memory cap)\nsource: %q", c.Text)
+				return fmt.Sprintf("the process running CompileWarrior died (fatal runtime error or memory cap)\nsource: %q", clip(c.Text))
 			}
 		}
 		if rs.OOM {
 			expensive(c.Text)
-			return fmt.Sprintf("CompileWarrior exceeded the 256 MiB heap cap (expansion estimate %.0f tokens)\nsource: %q", est, c.Text)
+			return fmt.Sprintf("CompileWarrior exceeded the 256 MiB heap cap (expansion estimate %.0f tokens)\nsource: %q", est, clip(c.Text))
 		}
 		if rs.Panic != "" {
-			return fmt.Sprintf("CompileWarrior panicked: %s\nsource: %q", clip(rs.Panic), c.Text)
+			return fmt.Sprintf("CompileWarrior panicked: %s\nsource: %q", clip(rs.Panic), clip(c.Text))
 		}
 		if rs.HasErr && !rs.ZeroData {
-			return fmt.Sprintf("error %q returned together with a non-empty warrior\nsource: %q", rs.Err, c.Text)
+			return fmt.Sprintf("error %q returned together with a non-empty warrior\nsource: %q", rs.Err, clip(c.Text))
 		}
 		if !rs.HasErr && rs.CodeNil {
-			return fmt.Sprintf("neither an error nor a warrior (Code is nil)\nsource: %q", c.Text)
+			return fmt.Sprintf("neither an error nor a warrior (Code is nil)\nsource: %q", clip(c.Text))
 		}
 		if rs.ParDiffer != "" {
-			return fmt.Sprintf("%d simultaneous assemblies of the same text disagree: %s\nsource: %q", c.Par, clip(rs.ParDiffer), c.Text)
+			return fmt.Sprintf("%d simultaneous assemblies of the same text disagree: %s\nsource: %q", c.Par, clip(rs.ParDiffer), clip(c.Text))
 		}
 		if len(rs.Leaked) > 0 {
-			return fmt.Sprintf("%d goroutine(s) left behind after CompileWarrior returned (err=%q); first survivor:\n%s\nsource: %q", len(rs.Leaked), rs.Err, clip(rs.Leaked[0]), c.Text)
+			return fmt.Sprintf("%d goroutine(s) left behind after CompileWarrior returned (err=%q); first survivor:\n%s\nsource: %q", len(rs.Leaked), rs.Err, clip(rs.Leaked[0]), clip(c.Text))
 		}
 		if rec != nil {
 			lower := strings.ToLower(c.Text)
